@@ -73,6 +73,8 @@ let eval (op : string) (args : sx list) : sx list =
     sx_of_out (fun (recs, clean) ->
         [L (List.map (fun (d, p) -> L [sx_of_bytes d; sx_of_bytes p]) recs); sx_of_bool clean])
       (scan_fasta (bytes_of_sx inp))
+  | "as_location", [s] -> sx_of_out (fun l -> [sx_of_loc l]) (as_location (bytes_of_sx s))
+  | "try_location", [s] -> sx_of_out (fun l -> [sx_of_loc l]) (try_location (bytes_of_sx s))
   | _ -> [A "unknown-op"]
 
 let () =
